@@ -191,10 +191,14 @@ PROPS = {
     "C19": {
         "harness": "c19",
         "theorems": ["DL.C19_sinks", "DL.C19_returned_is_printed", "DL.runSinks_all_printer", "DL.C19_coeff_names", "DL.C19_distinct",
-                     "DL.C19_declared", "DL.expandLines_nodes"],
-        "partial": ["'the two outputs contain the same declarations' and 'every symbol is declared before use' are decided by parsing both "
-                    "real outputs back (harness); the Lean side proves the clauses that are static in the source: all output calls go through "
-                    "`printer`, and the coefficient-name suffixes of both emitters",
+                     "DL.C19_declared", "DL.expandLines_nodes", "DL.C19_closed_cpp", "DL.C19_closed_py", "DL.C19_same_decls",
+                     "DL.closedB_iff", "DL.Supported_iff"],
+        "partial": ["C19_closed_cpp / C19_closed_py / C19_same_decls are about the declaration-use program of the model "
+                    "(DL/Model/GooFitProg.lean: what make_intro / make_pars declare, what every lineshape kind uses, the coefficient variables), "
+                    "for inputs meeting the decidable predicate Supported (resonances known and not final-state, spline constants present, "
+                    "K-matrix rows present); the model program is compared with the declarations and uses extracted from both real outputs "
+                    "on every run (driver op prog), including the closure verdict; numbers and layout of the emitted text are not modelled "
+                    "and are compared between the two real outputs by the harness",
                     "that the Python output runs is checked by executing it against a recording stand-in for goofit (runtime)"],
         "assumptions": ["premise of the property: the file defines the parameters its lineshapes need; the K-matrix parameter the emitted code "
                         "calls sA_0 is the one whose programmatic name is sA_0, i.e. a line named sA0; the shipped model does not define it, "
